@@ -521,6 +521,9 @@ ADAPTORS = {
     "futures::StreamExt::then": {"f": 1, "params": {2: [(0, ("$item",))]}, "result": [("ret", ("$item",), ("$out",))]},
     "futures::StreamExt::collect": {"f": None, "params": {}, "result": [(0, ("$out", "$item"), ("$item",))]},
     "futures::stream::poll_fn": {"f": 0, "params": {2: []}, "result": [("ret", ("$item",), ())]},
+    # unfold(init, |state| async { Some((item, state)) }): items are field 0 of the closure future's output, the state is init or field 1
+    "futures::stream::unfold": {"f": 1, "params": {2: [(0, ()), ("ret", ("$out", 1))]}, "result": [("ret", ("$item",), ("$out", 0))]},
+    "futures::stream::try_unfold": {"f": 1, "params": {2: [(0, ()), ("ret", ("$out", 1))]}, "result": [("ret", ("$item",), ("$out", 0))]},
     "futures::future::poll_fn": {"f": 0, "params": {2: []}, "result": [("ret", ("$out",), ())]},
     "std::future::poll_fn": {"f": 0, "params": {2: []}, "result": [("ret", ("$out",), ())]},
     "futures::future::ready": {"f": None, "params": {}, "result": [(0, ("$out",), ())]},
@@ -807,6 +810,13 @@ class Flow:
         path = c["path"]
         pc = is_param_call(t)
         if pc:
+            internal = self.internal_callback(body, pc)
+            if internal is not None:
+                # a private higher-order helper calling the crate's own closure: the result is that closure's result
+                out = set()
+                for cb in internal:
+                    out |= self._q(cb, 0, rest, mode)
+                return out
             if rest and rest[0] == "$out":
                 return {Src(("userfut", pc, tuple(rest[1:])))}
             return {Src(("usercall", pc, tuple(rest)))}
@@ -856,6 +866,11 @@ class Flow:
             return self._q_operand(body, args[OUTPUT_OF[path]], ("$out",) + tuple(rest), mode)
         if path in ITEM_OF:
             return self._q_operand(body, args[ITEM_OF[path]], ("$item",) + tuple(rest), mode)
+        if path in ("futures::future::join", "futures::future::join3", "futures::future::join4"):
+            # output of join(a, b) = (output of a, output of b)
+            if len(rest) >= 2 and rest[0] == "$out" and isinstance(rest[1], int) and rest[1] < len(args):
+                return self._q_operand(body, args[rest[1]], ("$out",) + tuple(rest[2:]), mode)
+            return {Src(("alloc", body.id, bb, tuple(rest), path))}
         if path in NEXT_ITEM_FUTURE:
             if rest and rest[0] == "$out":
                 return self._q_operand(body, args[NEXT_ITEM_FUTURE[path]], ("$item",) + tuple(rest[1:]), mode)
@@ -959,6 +974,56 @@ class Flow:
                     res |= self._q_operand(pb, t["args"][src], tuple(prefix) + tuple(path), mode)
         return res
 
+    def internal_callback(self, body, pname):
+        """If the type parameter `pname` called in `body` is a parameter of a
+        private crate-local function to which every call site passes one of the
+        crate's own closures / functions, returns those closure bodies; None when
+        the callee is (or may be) the library user's callback."""
+        key = (body.root, pname)
+        cache = self.__dict__.setdefault("_internal_cb", {})
+        if key in cache:
+            return cache[key]
+        res = None
+        R = self.fb.bodies.get(body.root)
+        sig = self.fb.fns.get(body.root)
+        if R is not None and sig is not None and not sig.get("public"):
+            pos = [i for i, x in enumerate(sig["inputs"]) if x["s"].lstrip("&").replace("mut ", "").strip() == pname]
+            sites = [(cb, bb, t) for (cb, bb, t) in self.call_sites().get(R.id, []) if not self.fb.is_test_body(cb)]
+            if len(pos) == 1 and sites:
+                bodies = []
+                ok = True
+                for cb, bb, t in sites:
+                    if pos[0] >= len(t["args"]):
+                        ok = False
+                        break
+                    x = self._closure_body_of_operand(cb, t["args"][pos[0]])
+                    if x is None:
+                        ok = False
+                        break
+                    bodies.append(x)
+                if ok:
+                    res = bodies
+        cache[key] = res
+        return res
+
+    def internal_callback_sites(self, cbody):
+        """calls `f(args)` of the private higher-order helper(s) that closure `cbody` is passed to: [(body, bb, term)]"""
+        out = []
+        for (pb, bb, t, ai) in self.closure_uses(cbody):
+            p = callee_path(t)
+            R = self.fb.bodies.get(p)
+            sig = self.fb.fns.get(p)
+            if R is None or sig is None or ai >= len(sig["inputs"]):
+                continue
+            pname = sig["inputs"][ai]["s"].lstrip("&").replace("mut ", "").strip()
+            for hb in self.fb.bodies.values():
+                if hb.root != R.id:
+                    continue
+                for hbb, ht in hb.calls():
+                    if is_param_call(ht) == pname and self.internal_callback(hb, pname) is not None:
+                        out.append((hb, hbb, ht))
+        return out
+
     def fn_item_uses(self):
         """crate-local function id -> [(body, bb, call term, arg index)] where the function item is passed as an argument"""
         m = getattr(self, "_fn_item_uses", None)
@@ -1010,6 +1075,13 @@ class Flow:
             if model is None or model.get("f") != ai or local not in model["params"]:
                 # closure used as a callback in a crate-local function?
                 if p in self.fb.bodies or (t.get("callee") or {}).get("local"):
+                    sites = self.internal_callback_sites(cbody)
+                    if sites:
+                        # parameter j of the closure = element j of the argument tuple of `f(..)` inside the helper
+                        for (hb, hbb, ht) in sites:
+                            if len(ht["args"]) > 1:
+                                res |= self._q_operand(hb, ht["args"][1], (local - 2,) + tuple(path), mode)
+                        continue
                     res.add(Src(("closure_param", cbody.id, local, tuple(path))))
                     continue
                 self.unknown_adaptors.add(p)
